@@ -605,6 +605,17 @@ class RouterAnalysis:
                 self.add('CR.1', False, f'{g}: writes under the read lock', a.site,
                          f'{strip_targs(a.cls)}::{a.field} is written at {a.site} in {strip_targs(a.fn).split("::")[-1]} while only a ReadLock on m_resource is held: two concurrent calls are not serialised (a change takes effect during a delivery)', key=k)
             if not ws: self.add('CR.1', True, f'{g}: every write holds the write lock', accs[0].site)
+        # CR.4: one critical section per operation (a decision taken under one acquisition must not be applied under a later one)
+        acq = {}
+        for ev in eng.events:
+            if ev[0] != 'acquire': continue
+            kind, node, L, root, chain, tok = ev
+            g = strip_targs(root[1])
+            if not g.startswith(CSR) or tok is None or not (strip_targs(tok[1]).startswith(CSR) and tok[4] == ltype): continue
+            acq.setdefault(g, set()).add(node.shortloc())
+        for g, sites in sorted(acq.items()):
+            self.add('CR.4', len(sites) == 1, f'{g}: the router\'s lock is taken once, for the whole operation', sorted(sites)[0],
+                     '' if len(sites) == 1 else f'the lock is taken at {len(sites)} places ({", ".join(sorted(sites))}) in one operation: what was decided under the first acquisition (e.g. which keys are unused) is applied under a later one, after other threads could subscribe or deliver in between', key=f'CR.4|split|{g}')
         ok, why, site = common.invoker_resource_flow(F)
         self.add('CR.2', ok, 'the handle returned by subscribe() unsubscribes under a WriteLock on the router\'s own Resource', site, '' if ok else why, key='CR.2|flow')
         inv = [f for f in F.fns if f.gname == f'{CSR}::Subscription::ConcurrentInvoker::unsubscribe']
@@ -642,6 +653,7 @@ class RouterAnalysis:
 
 
 RULE_TEXT = {
+    'CR.4': 'atomicity: every ConcurrentSubjectRouter operation takes the router\'s lock exactly once and does all its work on router / subject state inside that one critical section',
     'RT.1': 'type preservation through type erasure: Node::notify<A…> only ever calls Node::notify<A…>, casts to Subject<A…>, the routers forward with the same pack; subscribe creates and casts to Subject<A…>',
     'RT.2': 'no consumption in a fan-out: the leaf copies by-value class arguments into Subject::notify (the leaf may be reached once per matching key)',
     'RT.3': 'traversal skeleton on every row of (matches, leaf, subject, next level is regex, child found): non-matching => 0; leaf => notify the subject once and count 1 (0 without subject); regex level => every child, counts summed; string level => exactly find(name)',
